@@ -161,6 +161,56 @@ def forget_ops(r, budget=300):
     return ops
 
 
+def recency_ops(r, budget=300):
+    """Directed: several small entries of two functions are resident, some are used again (so that the recency order is no longer
+    the order of writing), then an operation that must leave the order of the others alone happens (a forget of another function
+    or call, a listing, metadata, a look-up of an absent call), then the cache is put under pressure entry by entry: the ones
+    dropped must be the least recently used."""
+    n = r.randint(3, 5)
+    small = max(20, (budget - 40) // (n + 1))
+    keys = [(1 + i % 2, 1 + i // 2) for i in range(n)]            # functions 1 and 2
+    ops = [{"op": "Memoize", "f": f, "h": h, "value": {"t": "bytes", "size": small, "fill": i % 4}, "ovr": 0} for i, (f, h) in enumerate(keys)]
+    ops.append({"op": "Memoize", "f": 3, "h": 1, "value": {"t": "bytes", "size": small, "fill": 2}, "ovr": 0})      # function 3: the bystander
+    for f, h in r.sample(keys, r.randint(1, max(1, n - 1))):
+        ops.append(r.choice([{"op": "ReadResult", "f": f, "h": h}, {"op": "IsMemoized", "f": f, "h": h},
+                             {"op": "GetMementos", "keys": [[f, h]]}, {"op": "IsAllMemoized", "keys": [[f, h]]}]))
+    ops.append(r.choice([{"op": "ForgetFunction", "f": 3}, {"op": "ForgetFunction", "f": 3}, {"op": "ForgetCall", "f": 3, "h": 1},
+                         {"op": "ForgetCall", "f": 3, "h": 2}, {"op": "ListFunctions"}, {"op": "ListMementos", "f": 1, "limit": 0},
+                         {"op": "WriteMetadata", "f": keys[0][0], "h": keys[0][1], "mk": 1, "b": 1, "wd": False},
+                         {"op": "GetMementos", "keys": [[3, 3]]}, {"op": "ForgetFunction", "f": keys[0][0]}]))
+    for i in range(r.randint(2, 4)):                               # pressure
+        ops.append({"op": "Memoize", "f": 3, "h": 2 + i, "value": {"t": "bytes", "size": small + 10 * i, "fill": i}, "ovr": 0})
+        f, h = r.choice(keys)
+        ops.append({"op": "IsMemoized", "f": f, "h": h})
+    for f, h in keys:
+        ops.append({"op": "ReadResult", "f": f, "h": h})
+    return ops
+
+
+def mixed_lookup_ops(r):
+    """Directed: one bulk look-up whose keys are in different states for THIS backend object - written through an earlier object
+    (on disk, not cached here), written through this one (cached), absent - in every order, with duplicates"""
+    keys = [[r.randint(1, 2), h] for h in (1, 2, 3)]
+    sts = ["disk", "cached", "absent"]
+    r.shuffle(sts)
+    if r.random() < 0.3:
+        sts[r.randint(0, 2)] = r.choice(["disk", "cached", "absent"])
+    val = lambda i: {"t": "bytes", "size": 50 + 7 * i, "fill": i}
+    ops = [{"op": "Memoize", "f": k[0], "h": k[1], "value": val(i), "ovr": 0} for i, (k, st) in enumerate(zip(keys, sts)) if st == "disk"]
+    ops.append({"op": "Reopen"})
+    ops += [{"op": "Memoize", "f": k[0], "h": k[1], "value": val(i + 3), "ovr": 0} for i, (k, st) in enumerate(zip(keys, sts)) if st == "cached"]
+    order = list(keys)
+    r.shuffle(order)
+    if r.random() < 0.4:
+        order.insert(r.randint(0, 3), r.choice(order))
+    ops.append({"op": "GetMementos", "keys": order})
+    ops.append({"op": "IsAllMemoized", "keys": order})
+    for k in keys:
+        ops.append({"op": r.choice(["IsMemoized", "ReadResult"]), "f": k[0], "h": k[1]})
+    ops.append({"op": "GetMementos", "keys": order})
+    return ops
+
+
 def ro_attempts(r, n, nf=3, nh=3):
     """Histories for a read-only backend: every kind of operation, writes included."""
     ops = random_ops(r, n, nf, nh, weak=False, writes=True)
@@ -321,8 +371,12 @@ def run(prop, tier):
             c = dict(rand_cfgs[i % len(rand_cfgs)])
             if prop in ("C05", "C06") and i % 5 == 3 and c["kind"] == "fs" and c["budget"]:
                 ops = forget_ops(r, c["budget"])
+            elif prop == "C06" and i % 5 == 1 and c["budget"] >= 300:
+                ops = recency_ops(r, c["budget"])
             elif prop == "C05" and i % 7 == 4:
                 ops = meta_ops(r, ln, budget=c["budget"] or 300)
+            elif prop == "C05" and i % 7 == 6 and c["kind"] == "fs":
+                ops = mixed_lookup_ops(r) + mixed_lookup_ops(r)
             else:
                 ops = random_ops(r, ln, budget=c["budget"] or 300, weak=(i % 3 != 0))
             jobs.append({"cfg": c, "ops": ops, "id": "rand"})
